@@ -171,7 +171,7 @@ def main(pid, module, conditions, tier, explain, finding_of=None, stubs=(), outs
         "coverage": {
             "states": max(1, sum(r["paths_confirmed"] for r in results)),
             "transitions": max(1, sum(r["smt_decisions"] for r in results)),
-            "traces_validated_against_impl": sum(1 for c, r in zip(conds, results) if r["verdict"] == "refuted"),
+            "traces_validated_against_impl": sum(1 for c, r in zip(conds, results) if r["verdict"] == "refuted") + len(known_hit),
             "samples": samples,
             "obligations": n_obl,
             "discharged": discharged,
@@ -188,8 +188,9 @@ def main(pid, module, conditions, tier, explain, finding_of=None, stubs=(), outs
         "wall_s": round(wall, 2),
         "violations": len(violations),
     }
-    os.makedirs(os.path.join(VERIF, "evidence"), exist_ok=True)
-    json.dump(ev, open(os.path.join(VERIF, "evidence", f"{pid}.json"), "w"), indent=1)
+    evdir = os.environ.get("VERIF_EVIDENCE_DIR") or os.path.join(VERIF, "evidence")
+    os.makedirs(evdir, exist_ok=True)
+    json.dump(ev, open(os.path.join(evdir, f"{pid}.json"), "w"), indent=1)
     print(f"{pid} tier={tier}: conditions={len(conds)} confirmed={discharged}/{n_obl} paths={ev['coverage']['states']} smt_decisions={ev['coverage']['transitions']} wall={wall:.1f}s")
     for fn, msg, rp in violations[:3]:
         print(f"  refuted condition '{fn}': {msg}")
